@@ -3,6 +3,7 @@
 under /verif/seeded/<Cxx>_<name>/.   usage: import_seed.py <out_dir> <Cxx>"""
 import json, os, shutil, subprocess, sys, tempfile
 out, prop = sys.argv[1], sys.argv[2]
+offset = int(sys.argv[3]) if len(sys.argv) > 3 else 0
 V = os.path.dirname(os.path.dirname(os.path.abspath(__file__)))
 for n in (1, 2, 3):
     patch = os.path.join(out, "patch_%d.diff" % n)
@@ -21,9 +22,9 @@ for n in (1, 2, 3):
         imp = subprocess.run(["/venv/bin/python", "-c", "import deephyper, deephyper.hpo, deephyper.evaluator"], env=env, stdout=subprocess.PIPE, stderr=subprocess.STDOUT, text=True)
         r1 = subprocess.run(["/venv/bin/python", demo], env=env, cwd=out, stdout=subprocess.PIPE, stderr=subprocess.STDOUT, text=True, timeout=900)
         ok = r0.returncode == 0 and r1.returncode != 0 and imp.returncode == 0
-        print(prop, n, "confirmed" if ok else "NOT CONFIRMED", "demo without=%d with=%d import=%d" % (r0.returncode, r1.returncode, imp.returncode))
+        print(prop, n + offset, "confirmed" if ok else "NOT CONFIRMED", "demo without=%d with=%d import=%d" % (r0.returncode, r1.returncode, imp.returncode))
         if ok:
-            d = os.path.join(V, "seeded", "%s_%d" % (prop, n)); os.makedirs(d, exist_ok=True)
+            d = os.path.join(V, "seeded", "%s_%d" % (prop, n + offset)); os.makedirs(d, exist_ok=True)
             shutil.copy(patch, os.path.join(d, "patch.diff")); shutil.copy(demo, os.path.join(d, "demo.py"))
             json.dump(dict(property=prop, summary=meta.get("summary"), needs_to_manifest=meta.get("needs_to_manifest"), files_touched=meta.get("files_touched"),
                            author="independent sub-agent given only the property text and a scratch worktree",
